@@ -95,3 +95,28 @@ fn c05_eq_dictionary_vs_flat() {
     assert!(r[0].is_none() && r[1] == Some(a0 == b1), "= with a dictionary operand: row-wise, NULL row stays NULL");
     kani::cover!(true);
 }
+
+// @h name=c05_not_constant props=C05 tier=quick
+#[kani::proof]
+#[kani::unwind(6)]
+#[kani::stub(alloc::fmt::format, crate::kani_verif_support::stub_format)]
+#[kani::stub(std::backtrace::Backtrace::capture, crate::kani_verif_support::stub_backtrace)]
+fn c05_not_constant() {
+    use crate::arrays::scalar::BorrowedScalarValue;
+    let v: bool = kani::any();
+    // a constant (one value for every row) and a constant NULL: the representations literals
+    // and folded sub-expressions take
+    let c = ok(Array::new_constant(&DefaultBufferManager, &BorrowedScalarValue::Boolean(v), 2));
+    let r = out2!(Not, vec![c]);
+    assert!(r[0] == Some(!v) && r[1] == Some(!v), "NOT over a constant array: every row negated");
+    let n = ok(Array::new_null(&DefaultBufferManager, DataType::boolean(), 2));
+    let r = out2!(Not, vec![n]);
+    assert!(r[0].is_none() && r[1].is_none(), "NOT over a constant NULL: every row NULL");
+    let c = ok(Array::new_constant(&DefaultBufferManager, &BorrowedScalarValue::Boolean(v), 2));
+    let r = out2!(IsBool<false, true>, vec![c]);
+    assert!(r[0] == Some(v) && r[1] == Some(v), "IS TRUE over a constant array");
+    let n = ok(Array::new_null(&DefaultBufferManager, DataType::boolean(), 2));
+    let r = out2!(IsBool<true, true>, vec![n]);
+    assert!(r[0] == Some(true) && r[1] == Some(true), "IS NOT TRUE over a constant NULL is true");
+    kani::cover!(true);
+}
